@@ -209,7 +209,9 @@ static int fork_once(const Plan &p, const std::string &dir, long idx, uint64_t s
         close(fds[0]);
         int efd = (int) syscall(SYS_openat, AT_FDCWD, errpath.c_str(), O_WRONLY | O_CREAT | O_TRUNC, 0644);
         if (efd >= 0) { dup2(efd, 2); }
-        alarm(p.swarm.big ? 120 : 60);
+        // a run that takes this long is reported as a hang; the driver re-executes such a plan alone with a far longer limit before
+        // it believes it (a loaded machine must not turn a slow run into a violation)
+        { const char *al = getenv("NIXSIM_ALARM"); alarm(al ? (unsigned) atoi(al) : (p.swarm.big ? 240u : 120u)); }
         std::string res = run_plan(p, dir, idx, seed);
         res += "\n";
         size_t off = 0;
